@@ -230,6 +230,8 @@ TUninit == /\ Is("Uninit") /\ Step
            /\ Must(Ev.live[1] = 0 /\ Ev.live[3] = 0 /\ Ev.live[4] = 0, "no buffer outlives the run")
            /\ (IF CheckLeak THEN Must(Ev.live[5] = 0, "no unord_blk outlives the run") ELSE TRUE)
            /\ Must(Ev.peak[1] <= cfg.TotIn /\ Ev.peak[3] <= cfg.TotOut /\ Ev.peak[4] <= cfg.W, "peak buffers within slot totals")
+           /\ Must(("heapk" \in DOMAIN Ev) => Ev.heapk <= 64 + 4 * cfg.W,
+                   "the heap is back to its size at the start of the run (nothing allocated for the run outlives it)")
            /\ rss' = Ev.rss /\ UNCHANGED <<dvars, bpb, pend, meta, nrun>>
 
 Next == \/ TReset \/ TStart \/ TInitX \/ TSrcTake \/ TSrcRel \/ TSrcClose \/ TSrcStop \/ TAvail \/ TAvailDrop \/ TEof
